@@ -5,6 +5,8 @@ CONSTANTS
   ClearBeforeCopy = FALSE
   CopyThroughSet = TRUE
   AliasedFirstAssignment = FALSE
+  Churn = FALSE
+  StaleReportedCache = FALSE
   UnhookedExtend = FALSE
 SPECIFICATION Spec
 INVARIANT KeepsData
